@@ -30,8 +30,13 @@ def build(asm, tier):
         asm.unit(u)
     asm.unit(ev.eval_dependencies())
     asm.raw(fs.ADD + fs.MUL + su.FN_SUBST_STUBS, 'assumed callee contracts of Function::substitute')
-    for n in ('Function + Function', 'Function * Function', 'Function * Linear', 'term iterator of &Function (fn_terms + axioms ax_fn_terms / ax_fn_terms_fin)', 'Function::zero', 'From<f64> for Function', 'Linear::single_term', 'SortedIds::iter'):
-        asm.stubs.append(dict(unit=n, proved_in='C02 (operators, zero, From) / C13 (single_term) / assumed (term iterator)'))
+    for n, where in (('Function + Function', 'C02 (same preconditions: oneofs set, fn_coo_ok); purity naming r == fn_add(..) is assumed'),
+                     ('Function * Function', 'C02 (same preconditions); purity naming r == fn_mul(..) is assumed'),
+                     ('Function * Linear', 'C02 (macro instance impl_mul_from!(Function, Linear, Function))'),
+                     ('term iterator of &Function (fn_terms + axioms ax_fn_terms / ax_fn_terms_fin)', 'assumed (Box<dyn Iterator>: outside the dialect); exercised by the bounded stand-in'),
+                     ('Function::zero', 'C02'), ('From<f64> for Function', 'C02'), ('Linear::single_term', 'C13'),
+                     ('SortedIds::iter', 'assumed (Deref to a slice)')):
+        asm.stubs.append(dict(unit=n, proved_in=where))
     asm.unit(su.function_substitute())
     asm.raw(su.SUBST_STUBS, 'HashMap::iter_mut loop over the dependency functions and HashMap::extend as helpers')
     asm.stubs.append(dict(unit='loop `for (_, f) in dependency.iter_mut() { *f = f.substitute(..)? }` (helper substitute_all_values) and HashMap::extend', proved_in='assumed helper contracts (no HashMap::iter_mut specification in vstd)'))
@@ -59,6 +64,6 @@ proof fn vacuity_subst(f: v1::Function, rep: Map<u64, v1::Function>, fss: Seq<Se
             'T5 ASSUMED for Function::substitute: operator contracts Function+Function, Function*Function, Function*Linear (pure, value up to an explicit remainder), the term iterator (axioms ax_fn_terms), Function::zero, From<f64>, Linear::single_term',
             'T5 ASSUMED for Instance::substitute: the HashMap::iter_mut loop over the dependency functions and HashMap::extend are helpers with the obvious contracts (the loop body is one call of Function::substitute)',
         ],
-        assumptions=common.A1 + ['precondition taken from the property: dependent-variable ids are not keys of the state passed in (Instance::evaluate passes the user state extended by substituted values)'],
+        assumptions=common.A1 + ['precondition taken from the property: dependent-variable ids are not keys of the state passed in (Instance::evaluate passes the user state extended by substituted values)'] + common.A_COO,
         not_covered=['the operator leaves used by Function::substitute (assumed contracts with explicit remainders, see C02)', 'exactness of the returned used-id set of eval_dependencies'],
     )
